@@ -104,7 +104,31 @@ fn after(doc: &CoreDocument, queries: &[(i64, i64)], obs: &mut Vec<i64>, why: &m
   for sc in scopes.iter() { let ms = doc.methods(*sc); obs.push(ms.len() as i64); for m in ms { put_u(obs, uints(m.id())); } }
 }
 
+/// kind -9: a query TEXT against a list of ids (DID, fragment): services of one document, methods of another; the first match
+fn exec_query(case: &[i64]) -> Outcome {
+  let mut v = &case[1..];
+  let q = String::from_utf8_lossy(&take_bytes(&mut v).unwrap()).to_string();
+  let n = take1(&mut v).unwrap(); let mut ids: Vec<String> = vec![];
+  for _ in 0..n { let d = String::from_utf8_lossy(&take_bytes(&mut v).unwrap()).to_string(); let hf = take1(&mut v).unwrap(); let f = String::from_utf8_lossy(&take_bytes(&mut v).unwrap()).to_string(); ids.push(if hf != 0 { format!("{d}#{f}") } else { d }); }
+  let svc: Vec<Value> = ids.iter().map(|id| json!({"id": id, "type": "T", "serviceEndpoint": "https://s.example/"})).collect();
+  let vms: Vec<Value> = ids.iter().map(|id| json!({"id": id, "controller": DIDS[1], "type": "Ed25519VerificationKey2018", "publicKeyMultibase": "zDATA"})).collect();
+  let (ds, dm) = match (CoreDocument::from_json_value(json!({"id": DIDS[1], "service": svc})), CoreDocument::from_json_value(json!({"id": DIDS[1], "verificationMethod": vms}))) { (Ok(a), Ok(b)) => (a, b), _ => return Outcome::new(vec![-6]).class("query-doc-rejected").trivial() };
+  let pos = |id: Option<String>| id.and_then(|i| ids.iter().position(|x| *x == i)).map_or(-1, |p| p as i64);
+  let rs = pos(ds.resolve_service(q.as_str()).map(|s| s.id().to_string()));
+  let rm = pos(dm.resolve_method(q.as_str(), None).map(|m| m.id().to_string()));
+  let mut o = Outcome::new(vec![rs]).class(if rs >= 0 { "query-found" } else { "query-none" });
+  if rs != rm { o = o.fail("resolve_service and resolve_method answer the same query text differently over the same ids"); }
+  // what the statement demands of the three query forms: full id, #fragment, bare fragment
+  for (k, id) in ids.iter().enumerate() { if let Some((d, f)) = id.split_once('#') { if f.is_empty() || f.contains('#') { continue; }
+    let first_same_frag = ids.iter().position(|x| x.split_once('#').map(|p| p.1) == Some(f)).unwrap();
+    let first_same_id = ids.iter().position(|x| x == id).unwrap();
+    if q == *id && rs != first_same_id as i64 && k == first_same_id { o = o.fail("an entry is not found by its full id"); }
+    if (q == format!("#{f}") || (q == f && !f.starts_with("did:"))) && rs != first_same_frag as i64 && k == first_same_frag { o = o.fail("an entry is not found by its fragment (with or without the leading #)"); }
+    let _ = d; } }
+  o
+}
 pub fn exec(case: &[i64]) -> Outcome {
+  if case.first() == Some(&-9) { return exec_query(case); }
   let mut v = case;
   let n = take1(&mut v).unwrap(); let mut vm = Vec::new(); for _ in 0..n { let u = take_u(&mut v); let x = take1(&mut v).unwrap(); vm.push(meth_json(u, x)); }
   let mut rels: Vec<Vec<Value>> = Vec::new();
@@ -219,6 +243,14 @@ fn seqs(ops: &[Vec<i64>], depth: usize, prefix: &mut Vec<i64>, head: &[i64], sin
 }
 
 pub fn gen(rng: &mut Rng, thorough: bool, sink: &mut Sink) {
+  // string-level queries: fragments that look like the start of a DID, repeated '#', relative forms, other DIDs
+  { let frags = ["f1", "didcomm", "did", "did:x", "key-1", "DID", "d", "di", "dide", "a:b"];
+    let mk = |q: &str, ids: &[(usize, &str)]| -> Vec<i64> { let mut c = vec![-9]; put_bytes(&mut c, q.as_bytes()); c.push(ids.len() as i64); for (d, f) in ids { put_bytes(&mut c, DIDS[*d].as_bytes()); c.push(1); put_bytes(&mut c, f.as_bytes()); } c };
+    let all: Vec<(usize, &str)> = frags.iter().map(|f| (1usize, *f)).chain(frags.iter().take(4).map(|f| (2usize, *f))).collect();
+    let mut qs: Vec<String> = vec!["".into(), "#".into(), DIDS[1].into(), format!("{}#", DIDS[1]), "did".into(), "did:".into(), "#did".into()];
+    for f in frags.iter() { qs.push(f.to_string()); qs.push(format!("#{f}")); qs.push(format!("{}#{f}", DIDS[1])); qs.push(format!("{}#{f}", DIDS[2])); qs.push(format!("{}/p?q=1#{f}", DIDS[1])); qs.push(format!("{}?q=1#{f}", DIDS[2])); qs.push(format!("?q#{f}")); qs.push(format!("/p#{f}")); qs.push(format!("x#y#{f}")); qs.push(format!("{f}#")); qs.push(format!("did:example:other#{f}")); }
+    for q in &qs { sink.case(mk(q, &all), "query-text"); let rev: Vec<(usize, &str)> = all.iter().rev().cloned().collect(); sink.case(mk(q, &rev), "query-text"); sink.case(mk(q, &all[3..9]), "query-text"); }
+    let _ = (&rng, thorough); }
   let small = all_ops(true); let full = all_ops(false);
   for st in starts() {
     let head = enc_start(&st, &QUERIES);
